@@ -207,7 +207,7 @@ def monitor_work(arg):
 # ------------------------------------------------------------------ canonical rendering
 
 def corpus(depth, rng, limit):
-    atoms = [None, True, False, 0, -7, 12345678901234, "", "a", "two words", "é✓", "tab\there"]
+    atoms = [None, True, False, 0, -7, 12345678901234, "", "a", "two words", "é✓", "tab\there", "x\n", "l1\nl2", "\n", "cr\r\nlf"]
     level = [atoms]
     for d in range(depth):
         prev = [v for lv in level for v in lv]
@@ -270,6 +270,17 @@ def build_value(v, rng, name, stmts):
     return A.obj(*rev)
 
 
+def flat_atoms(v):
+    if isinstance(v, list):
+        for x in v:
+            yield from flat_atoms(x)
+    elif isinstance(v, dict):
+        for x in v.values():
+            yield from flat_atoms(x)
+    else:
+        yield v
+
+
 def render_work(arg):
     seed, depth, n = arg
     rng = random.Random(seed)
@@ -306,7 +317,9 @@ def render_work(arg):
     for i, v, body in expect:
         tail = ["1", "<null>"] if i == 0 else ["-"]
         want = body + body + tail
-        if chunks.get(i) != want:
+        # inner lines of multi-line strings may be re-indented in any way (unspecified); nothing may be dropped or reordered
+        norm = lambda ls: None if ls is None else [l.lstrip(" ") for l in ls]
+        if norm(chunks.get(i)) != norm(want) or (not any("\n" in str(x) for x in flat_atoms(v)) and chunks.get(i) != want):
             res["viol"].append(("render", "print of %r is not the canonical rendering (or differs between two construction histories): got %s" % (v, chunks.get(i, [])[:8]), r.text))
             break
     return res
